@@ -1882,6 +1882,14 @@ def run_case(case, scratch, cls=None):
         pass
     if hasattr(run, 'after_main'):
         run.after_main()
+    if run.knobs.get('dbkind') == 'shared':
+        # Pony never closes the connection of an in-memory database: close the real handles so that the
+        # database goes away with the run
+        for pc in list(c.conns):
+            try:
+                pc._real.close()
+            except Exception:
+                pass
     if case.get('retag_as'):
         # the same oracles under another regime are another property's evidence: under loading knobs C23
         # (observed data must not depend on the loading strategy), under crash / error injection C17
